@@ -36,6 +36,7 @@ type checkOpts struct {
 	dump     string
 	seed     int64
 	noReplay bool
+	out      string
 	noBounded bool
 	budget   int
 }
@@ -56,6 +57,7 @@ func main() {
 		fs.StringVar(&o.only, "only", "", "restrict to functions whose short name contains this")
 		fs.BoolVar(&o.verbose, "v", false, "verbose")
 		fs.StringVar(&o.dump, "dump", "", "directory to dump SMT queries into")
+		fs.StringVar(&o.out, "out", "", "directory for evidence/ and replays/ (default: the verification root)")
 		fs.BoolVar(&o.noReplay, "noreplay", false, "skip replay")
 		fs.BoolVar(&o.noBounded, "nobounded", false, "skip the bounded stand-ins")
 		fs.IntVar(&o.budget, "budget", 0, "per-obligation solver budget in seconds (default 10 quick / 60 thorough)")
@@ -100,6 +102,13 @@ type obResult struct {
 	Size    int
 	Outcome *Outcome
 	Input   map[string]interface{} // a failing input found directly (bounded checks)
+}
+
+func (o *checkOpts) outDir() string {
+	if o.out != "" {
+		return o.out
+	}
+	return o.verif
 }
 
 func hasTag(tags []string, p string) bool {
@@ -149,7 +158,7 @@ func runCheck(o *checkOpts) int {
 			continue
 		}
 		// relevant to this property?
-		if o.prop != "" && !pkgMentions(w, key, o.prop) && homeProp(key) != o.prop {
+		if o.prop != "" && !pkgMentions(w, key, o.prop) && !hasHome(key, o.prop) {
 			continue
 		}
 		pkgPath := key
@@ -388,7 +397,7 @@ func runCheck(o *checkOpts) int {
 	if prop == "" {
 		prop = "ALL"
 	}
-	os.MkdirAll(filepath.Join(o.verif, "replays", prop), 0o755)
+	os.MkdirAll(filepath.Join(o.outDir(), "replays", prop), 0o755)
 	for _, r := range failed {
 		isKnown := false
 		for _, f := range known {
@@ -447,9 +456,9 @@ func runCheck(o *checkOpts) int {
 		ev["scope"] = sc
 	}
 	if o.prop != "" {
-		os.MkdirAll(filepath.Join(o.verif, "evidence"), 0o755)
+		os.MkdirAll(filepath.Join(o.outDir(), "evidence"), 0o755)
 		b, _ := json.MarshalIndent(ev, "", " ")
-		os.WriteFile(filepath.Join(o.verif, "evidence", o.prop+".json"), b, 0o644)
+		os.WriteFile(filepath.Join(o.outDir(), "evidence", o.prop+".json"), b, 0o644)
 	}
 	fmt.Printf("property=%s tier=%s functions=%d obligations=%d discharged=%d covers=%d/%d failed=%d wall=%.1fs solver=%.1fs\n",
 		prop, o.tier, len(funcsUnder), nOb, nDis, nCoverOK, nCover, len(failed), time.Since(start).Seconds(), solverSecs)
@@ -538,7 +547,7 @@ func writeReplay(o *checkOpts, prop string, r *obResult) string {
 	if len(name) > 150 {
 		name = name[:150]
 	}
-	path := filepath.Join(o.verif, "replays", prop, name+".json")
+	path := filepath.Join(o.outDir(), "replays", prop, name+".json")
 	rep := map[string]interface{}{
 		"property":   prop,
 		"obligation": r.Ob.Name,
@@ -588,8 +597,8 @@ func replayHasInput(path string) bool {
 
 func violationNoInput(o *checkOpts, what, msg string, start time.Time) int {
 	prop := o.prop
-	os.MkdirAll(filepath.Join(o.verif, "replays", prop), 0o755)
-	path := filepath.Join(o.verif, "replays", prop, what+".json")
+	os.MkdirAll(filepath.Join(o.outDir(), "replays", prop), 0o755)
+	path := filepath.Join(o.outDir(), "replays", prop, what+".json")
 	b, _ := json.MarshalIndent(map[string]interface{}{"property": prop, "obligation": "structure:" + what, "status": "structure", "clause": msg}, "", " ")
 	os.WriteFile(path, b, 0o644)
 	fmt.Printf("VIOLATION property=%s replay=%s no-failing-input-found\n", prop, path)
@@ -598,40 +607,55 @@ func violationNoInput(o *checkOpts, what, msg string, start time.Time) int {
 		"coverage": map[string]interface{}{"obligations": 1, "discharged": 0, "checker_cmd": "govc check", "trusted_base": []string{}, "explanation": msg,
 			"evaluations": 1, "distinct_nontrivial": 2},
 	}
-	os.MkdirAll(filepath.Join(o.verif, "evidence"), 0o755)
+	os.MkdirAll(filepath.Join(o.outDir(), "evidence"), 0o755)
 	eb, _ := json.MarshalIndent(ev, "", " ")
-	os.WriteFile(filepath.Join(o.verif, "evidence", prop+".json"), eb, 0o644)
+	os.WriteFile(filepath.Join(o.outDir(), "evidence", prop+".json"), eb, 0o644)
 	return 1
 }
 
 
 // homeProp: untagged (core) obligations of a package are discharged by the check of its
 // home property; every other check that needs them says so in its evidence.
-func homeProp(key string) string {
+// homeProps: the properties an untagged (core) obligation of a function belongs to: the structural
+// contracts of a package carry every property that is argued on top of them. The first one is the
+// primary home (used for vacuity covers).
+func homeProps(key string) []string {
 	switch {
-	case strings.Contains(key, "/internal/buffer."), strings.Contains(key, "/internal/escape."):
-		return "C01"
+	case strings.Contains(key, "/internal/escape."):
+		return []string{"C01", "C03", "C10"}
+	case strings.Contains(key, "/internal/buffer."):
+		return []string{"C01", "C03", "C13"}
 	case strings.Contains(key, "/internal/rfmt"):
-		return "C05"
+		return []string{"C05", "C02", "C06"}
 	case strings.Contains(key, "/builder."):
-		return "C09"
+		return []string{"C09"}
 	case strings.Contains(key, "/internal/fmtforward."), strings.Contains(key, "/internal/redact."):
-		return "C14"
+		return []string{"C14"}
 	case strings.Contains(key, "/internal/markers."):
-		return "C07"
+		return []string{"C07"}
 	}
-	return "C08"
+	return []string{"C08"}
 }
+
+func homeProp(key string) string { return homeProps(key)[0] }
+
+func hasHome(key, prop string) bool { return hasTag(homeProps(key), prop) }
 
 func effectiveTags(ob *Obligation, key string) []string {
 	if len(ob.Tags) > 0 {
 		return ob.Tags
 	}
-	return []string{homeProp(key)}
+	tags := homeProps(key)
+	// the Buffer's representation invariant required at a call from another package is what carries
+	// well-formedness and line-safety (C01, C03) through the printer and the builder
+	if strings.Contains(ob.Name, "#call:buffer.") && strings.Contains(ob.Name, ".inv.") {
+		tags = append(append([]string{}, tags...), "C01", "C03")
+	}
+	return tags
 }
 
 func homeOrMentioned(fc *FuncContract, w *World, key, prop string) bool {
-	return homeProp(key) == prop || contractMentions(fc, w, key, prop)
+	return hasHome(key, prop) || contractMentions(fc, w, key, prop)
 }
 
 
